@@ -40,6 +40,8 @@ def classify(replay):
     import re
     if re.match(r"^'([^'\\\n]|\\.){5,}'$", t):
         return "F-long-multichar-c10"
+    if re.match(r"^(L|u8|u|U)'([^'\\\n]|\\.){2,}'$", t):
+        return "F-c10-prefixed-multichar"
     return None
 
 
